@@ -14,6 +14,7 @@ import (
 	"go/ast"
 	"go/parser"
 	"go/token"
+	"os"
 	"path/filepath"
 	"reflect"
 	"strconv"
@@ -22,79 +23,163 @@ import (
 
 func init() { register("SerdeDtos", genSerdeDtos) }
 
-var serdeDtoList = []struct{ coq, file, typ string }{
-	{"threshold", "pkg/mpc/sharing/accessstructures/threshold/cbor.go", "thresholdDTO"},
-	{"unanimity", "pkg/mpc/sharing/accessstructures/unanimity/cbor.go", "unanimityDTO"},
-	{"cnf", "pkg/mpc/sharing/accessstructures/cnf/cbor.go", "cnfDTO"},
-	{"hierarchical", "pkg/mpc/sharing/accessstructures/hierarchical/cbor.go", "hierarchicalConjunctiveThresholdDTO"},
-	{"hierarchical_level", "pkg/mpc/sharing/accessstructures/hierarchical/cbor.go", "thresholdLevelDTO"},
-	{"boolexpr", "pkg/mpc/sharing/accessstructures/boolexpr/cbor.go", "thresholdGateAccessStructureDTO"},
-	{"boolexpr_node", "pkg/mpc/sharing/accessstructures/boolexpr/cbor.go", "nodeDTO"},
-	{"msp", "pkg/mpc/sharing/scheme/kw/msp/cbor.go", "mspDTO"},
-	{"kwshare", "pkg/mpc/sharing/scheme/kw/share.go", "shareDTO"},
-	{"feldman_lifted", "pkg/mpc/sharing/vss/feldman/share.go", "liftedShareDTO"},
-	{"feldman_vv", "pkg/mpc/sharing/vss/feldman/verification_vector.go", "verificationVectorDTO"},
-	{"basepublic", "pkg/mpc/base.go", "basePublicMaterialDTO"},
-	{"baseshard", "pkg/mpc/base.go", "baseShardDTO"},
-	{"ecdsasig", "pkg/signatures/ecdsa/signature.go", "signatureDTO"},
-	{"dkls23partial", "pkg/mpc/signatures/ecdsa/dkls23/dkls23.go", "partialSignatureDTO"},
-	{"matrix", "pkg/base/mat/cbor.go", "matrixDTO"},
-	{"mvmatrix", "pkg/base/mat/cbor.go", "moduleValuedMatrixDTO"},
-	{"sqmatrix", "pkg/base/mat/cbor.go", "squareMatrixDTO"},
-	{"num_nat", "pkg/base/nt/num/cbor.go", "natDTO"},
-	{"num_int", "pkg/base/nt/num/cbor.go", "intDTO"},
-	{"num_natplus", "pkg/base/nt/num/cbor.go", "natPlusDTO"},
-	{"numct_nat", "pkg/base/nt/numct/cbor.go", "natDTO"},
-	{"numct_int", "pkg/base/nt/numct/cbor.go", "intDTO"},
-	{"k256_scalar", "pkg/base/curves/k256/cbor.go", "scalarDTO"},
-	{"k256_point", "pkg/base/curves/k256/cbor.go", "pointDTO"},
-	{"p256_scalar", "pkg/base/curves/p256/cbor.go", "scalarDTO"},
-	{"p256_point", "pkg/base/curves/p256/cbor.go", "pointDTO"},
-	{"bls12381_scalar", "pkg/base/curves/pairable/bls12381/cbor.go", "scalarDTO"},
-	{"bls12381_g1", "pkg/base/curves/pairable/bls12381/cbor.go", "pointG1DTO"},
+// (Coq name, package directory, receiver type whose UnmarshalCBOR decodes the DTO).  The DTO struct
+// is found through the type argument of the serde.UnmarshalCBOR[...] call in that method, so
+// renaming the (unexported) DTO type or moving code between files of the package is harmless.
+var serdeDtoList = []struct{ coq, dir, recv string }{
+	{"threshold", "pkg/mpc/sharing/accessstructures/threshold", "Threshold"},
+	{"unanimity", "pkg/mpc/sharing/accessstructures/unanimity", "Unanimity"},
+	{"cnf", "pkg/mpc/sharing/accessstructures/cnf", "CNF"},
+	{"hierarchical", "pkg/mpc/sharing/accessstructures/hierarchical", "HierarchicalConjunctiveThreshold"},
+	{"hierarchical_level", "pkg/mpc/sharing/accessstructures/hierarchical", "ThresholdLevel"},
+	{"boolexpr", "pkg/mpc/sharing/accessstructures/boolexpr", "ThresholdGateAccessStructure"},
+	{"boolexpr_node", "pkg/mpc/sharing/accessstructures/boolexpr", "Node"},
+	{"msp", "pkg/mpc/sharing/scheme/kw/msp", "MSP"},
+	{"kwshare", "pkg/mpc/sharing/scheme/kw", "Share"},
+	{"feldman_lifted", "pkg/mpc/sharing/vss/feldman", "LiftedShare"},
+	{"feldman_vv", "pkg/mpc/sharing/vss/feldman", "VerificationVector"},
+	{"basepublic", "pkg/mpc", "BasePublicMaterial"},
+	{"baseshard", "pkg/mpc", "BaseShard"},
+	{"ecdsasig", "pkg/signatures/ecdsa", "Signature"},
+	{"dkls23partial", "pkg/mpc/signatures/ecdsa/dkls23", "PartialSignature"},
+	{"pedersen_share", "pkg/mpc/sharing/vss/pedersen", "Share"},
+	{"pedersen_lifted", "pkg/mpc/sharing/vss/pedersen", "LiftedShare"},
+	{"pedcom_message", "pkg/commitments/pedersencom", "Message"},
+	{"pedcom_witness", "pkg/commitments/pedersencom", "Witness"},
+	{"pedcom_commitment", "pkg/commitments/pedersencom", "Commitment"},
+	{"matrix", "pkg/base/mat", "Matrix"},
+	{"mvmatrix", "pkg/base/mat", "ModuleValuedMatrix"},
+	{"sqmatrix", "pkg/base/mat", "SquareMatrix"},
+	{"num_nat", "pkg/base/nt/num", "Nat"},
+	{"num_int", "pkg/base/nt/num", "Int"},
+	{"num_natplus", "pkg/base/nt/num", "NatPlus"},
+	{"numct_nat", "pkg/base/nt/numct", "Nat"},
+	{"numct_int", "pkg/base/nt/numct", "Int"},
+	{"k256_scalar", "pkg/base/curves/k256", "Scalar"},
+	{"k256_point", "pkg/base/curves/k256", "Point"},
+	{"p256_scalar", "pkg/base/curves/p256", "Scalar"},
+	{"p256_point", "pkg/base/curves/p256", "Point"},
+	{"bls12381_scalar", "pkg/base/curves/pairable/bls12381", "Scalar"},
+	{"bls12381_g1", "pkg/base/curves/pairable/bls12381", "PointG1"},
 }
 
-func genSerdeDtos(repo string) (string, map[string]string, error) {
-	hashes := map[string]string{}
-	fset := token.NewFileSet()
-	files := map[string]*ast.File{}
-	var sb strings.Builder
-	sb.WriteString("(* GENERATED by /verif/translator (unit SerdeDtos) from the DTO struct declarations — do not edit *)\n")
-	sb.WriteString("From Coq Require Import List NArith Bool.\nImport ListNotations.\nLocal Open Scope N_scope.\n\n")
-	sb.WriteString("(* (wire field name as UTF-8 bytes, omitempty?) in declaration order *)\n")
-	for _, d := range serdeDtoList {
-		f := files[d.file]
-		if f == nil {
-			var err error
-			f, err = parser.ParseFile(fset, filepath.Join(repo, d.file), nil, 0)
-			if err != nil {
-				return "", nil, err
-			}
-			files[d.file] = f
+// dtoOf finds, in the parsed files of one package, the struct type that recv.UnmarshalCBOR passes
+// as type argument to serde.UnmarshalCBOR.
+func dtoOf(fset *token.FileSet, files []*ast.File, recv string) (*ast.TypeSpec, *ast.StructType, error) {
+	var m *ast.FuncDecl
+	for _, f := range files {
+		if fd := findMethod(f, recv, "UnmarshalCBOR"); fd != nil {
+			m = fd
+			break
 		}
-		var st *ast.StructType
-		var spec *ast.TypeSpec
+	}
+	if m == nil {
+		return nil, nil, fmt.Errorf("method %s.UnmarshalCBOR not found", recv)
+	}
+	name := ""
+	ast.Inspect(m.Body, func(n ast.Node) bool {
+		if name != "" {
+			return false
+		}
+		var fun, arg ast.Expr
+		switch x := n.(type) {
+		case *ast.IndexExpr:
+			fun, arg = x.X, x.Index
+		case *ast.IndexListExpr:
+			if len(x.Indices) == 1 {
+				fun, arg = x.X, x.Indices[0]
+			}
+		}
+		sel, ok := fun.(*ast.SelectorExpr)
+		if !ok || sel.Sel.Name != "UnmarshalCBOR" {
+			return true
+		}
+		if id, ok := sel.X.(*ast.Ident); !ok || id.Name != "serde" {
+			return true
+		}
+		// strip pointer and type arguments: *dto[E, S] -> dto
+		for {
+			switch a := arg.(type) {
+			case *ast.StarExpr:
+				arg = a.X
+				continue
+			case *ast.IndexExpr:
+				arg = a.X
+				continue
+			case *ast.IndexListExpr:
+				arg = a.X
+				continue
+			case *ast.ParenExpr:
+				arg = a.X
+				continue
+			}
+			break
+		}
+		if id, ok := arg.(*ast.Ident); ok {
+			name = id.Name
+		}
+		return true
+	})
+	if name == "" {
+		return nil, nil, fmt.Errorf("%s.UnmarshalCBOR: no serde.UnmarshalCBOR[<DTO>] call with a named DTO type", recv)
+	}
+	for _, f := range files {
 		for _, decl := range f.Decls {
 			gd, ok := decl.(*ast.GenDecl)
 			if !ok {
 				continue
 			}
 			for _, s := range gd.Specs {
-				if ts, ok := s.(*ast.TypeSpec); ok && ts.Name.Name == d.typ {
-					spec = ts
-					st, _ = ts.Type.(*ast.StructType)
+				if ts, ok := s.(*ast.TypeSpec); ok && ts.Name.Name == name {
+					st, ok := ts.Type.(*ast.StructType)
+					if !ok {
+						return nil, nil, fmt.Errorf("%s.UnmarshalCBOR decodes into %s, which is not a struct", recv, name)
+					}
+					return ts, st, nil
 				}
 			}
 		}
-		if spec == nil || st == nil {
-			return "", nil, fmt.Errorf("%s: struct type %s not found", d.file, d.typ)
+	}
+	return nil, nil, fmt.Errorf("%s.UnmarshalCBOR decodes into %s, not declared in the package", recv, name)
+}
+
+func genSerdeDtos(repo string) (string, map[string]string, error) {
+	hashes := map[string]string{}
+	fset := token.NewFileSet()
+	pkgs := map[string][]*ast.File{}
+	var sb strings.Builder
+	sb.WriteString("(* GENERATED by /verif/translator (unit SerdeDtos) from the DTO struct declarations — do not edit *)\n")
+	sb.WriteString("From Coq Require Import List NArith Bool.\nImport ListNotations.\nLocal Open Scope N_scope.\n\n")
+	sb.WriteString("(* (wire field name as UTF-8 bytes, omitempty?) in declaration order *)\n")
+	for _, d := range serdeDtoList {
+		files, ok := pkgs[d.dir]
+		if !ok {
+			ents, err := os.ReadDir(filepath.Join(repo, d.dir))
+			if err != nil {
+				return "", nil, err
+			}
+			for _, e := range ents {
+				if e.IsDir() || !strings.HasSuffix(e.Name(), ".go") || strings.HasSuffix(e.Name(), "_test.go") {
+					continue
+				}
+				f, err := parser.ParseFile(fset, filepath.Join(repo, d.dir, e.Name()), nil, 0)
+				if err != nil {
+					return "", nil, err
+				}
+				files = append(files, f)
+			}
+			pkgs[d.dir] = files
+		}
+		spec, st, err := dtoOf(fset, files, d.recv)
+		if err != nil {
+			return "", nil, fmt.Errorf("%s: %v", d.dir, err)
 		}
 		hashes[d.coq] = hashText(src(fset, spec))
 		var items []string
 		var comment []string
 		for _, fld := range st.Fields.List {
 			if len(fld.Names) == 0 {
-				return "", nil, fmt.Errorf("%s.%s: embedded field %s", d.file, d.typ, src(fset, fld.Type))
+				return "", nil, fmt.Errorf("%s.%s: embedded field %s", d.dir, d.recv, src(fset, fld.Type))
 			}
 			for _, nm := range fld.Names {
 				if !nm.IsExported() {
@@ -104,7 +189,7 @@ func genSerdeDtos(repo string) (string, map[string]string, error) {
 				if fld.Tag != nil {
 					raw, err := strconv.Unquote(fld.Tag.Value)
 					if err != nil {
-						return "", nil, fmt.Errorf("%s.%s.%s: tag %s", d.file, d.typ, nm.Name, fld.Tag.Value)
+						return "", nil, fmt.Errorf("%s.%s.%s: tag %s", d.dir, d.recv, nm.Name, fld.Tag.Value)
 					}
 					tag, ok := reflect.StructTag(raw).Lookup("cbor")
 					if ok {
@@ -120,7 +205,7 @@ func genSerdeDtos(repo string) (string, map[string]string, error) {
 							case "omitempty":
 								omit = true
 							default:
-								return "", nil, fmt.Errorf("%s.%s.%s: unsupported cbor tag option %q", d.file, d.typ, nm.Name, o)
+								return "", nil, fmt.Errorf("%s.%s.%s: unsupported cbor tag option %q", d.dir, d.recv, nm.Name, o)
 							}
 						}
 					}
@@ -133,7 +218,7 @@ func genSerdeDtos(repo string) (string, map[string]string, error) {
 				comment = append(comment, name)
 			}
 		}
-		fmt.Fprintf(&sb, "(* %s %s: %s *)\n", d.file, d.typ, strings.Join(comment, ", "))
+		fmt.Fprintf(&sb, "(* %s %s: %s *)\n", d.dir, d.recv, strings.Join(comment, ", "))
 		fmt.Fprintf(&sb, "Definition dto_%s : list (list N * bool) :=\n  [ %s ].\n\n", d.coq, strings.Join(items, ";\n    "))
 	}
 	return sb.String(), hashes, nil
